@@ -42,7 +42,7 @@ def _case(draw, max_ops):
     n_ops = draw(st.integers(1, max_ops))
     bystander = draw(st.sampled_from([False, False, False, True]))
     ops = []
-    kinds = ['train'] * 6 + ['eval', 'reset_batch', 'ckpt', 'snapshot', 'rollback'] + (['sched_step'] * 2 if scheduler else [])
+    kinds = ['train'] * 6 + ['eval', 'reset_batch', 'ckpt', 'snapshot', 'rollback', 'inspect'] + (['sched_step'] * 2 if scheduler else [])
     for _ in range(n_ops):
         k = draw(st.sampled_from(kinds))
         if k == 'train':
@@ -77,7 +77,7 @@ class C05(Prop):
             'LambdaParamScheduler over up to 3 constant parameters with its own factor tables) and a program of 1-20 (quick) / 1-30 (thorough) '
             'operations {train iteration (optionally unequal micro-batch sizes, optionally a mid-iteration reset_batch in no-hook mode followed by '
             'a full set of micro-batches; optionally 1-3 extra forward-only train-mode passes when the step is not a factor-update step), eval-mode pass, reset_batch, scheduler.step(), checkpoint round trip into a fresh preconditioner, '
-            'snapshot = keep state_dict() alive in memory, rollback = load that kept dict into the live preconditioner and restore the weights}; '
+            'inspect = repr / property reads / state_dict / memory_usage (read-only looking; all library log records are produced and formatted throughout), snapshot = keep state_dict() alive in memory, rollback = load that kept dict into the live preconditioner and restore the weights}; '
             'damping / decay / clip / lr may also be callables reading live state changed between iterations; in a quarter of the cases a '
             'second, independent model of the same architecture with its own preconditioner lives in the same process and runs its own '
             'micro-batches and steps in between (it must not influence the first). The '
@@ -126,6 +126,8 @@ class C05(Prop):
                 bad = ls.reset_batch()
             elif k == 'sched_step':
                 bad = ls.sched_step()
+            elif k == 'inspect':
+                bad = ls.inspect()
             elif k == 'snapshot':
                 bad = ls.snapshot()
             elif k == 'rollback':
